@@ -3,8 +3,8 @@ from __future__ import annotations
 
 import ast
 
-from ..an import avoiding_path, cut, is_method_call, reaches
-from ..cfg import calls_at
+from ..an import avoiding_path, cut, is_method_call, node_defines, reaches, reaching_defs
+from ..cfg import calls_at, node_exprs
 from ..core import Checker
 from ..loader import Func, norm, walk_expr, walk_own
 from ..prov import call_name, expand1
@@ -94,9 +94,28 @@ def check(ck: Checker) -> None:
     sm = prog.func("hashfile.state", "State.save_many")
     g3 = ck.cfg(sm)
     apps = [n for n in g3.nodes.values() for c in calls_at(n) if is_method_call(c, "append")]
-    stats = [n for n in g3.nodes.values() if n.kind == "stmt" and isinstance(n.ast, ast.Assign) and norm(n.ast.targets[0]) == "info" and "fs.info(path)" in norm(n.ast.value)]
     for a in apps:
-        ok = bool(stats) and avoiding_path(g3, a.id, lambda x: x.id in {s.id for s in stats} or (x.kind == "test" and norm(x.ast) == "info"), start=a.loops[-1] if a.loops else None) is None
+        # the stat the row is computed from: the argument of _checksum(...) inside the appended row (or in the
+        # definition of a local the row mentions)
+        exprs = [x for x in node_exprs(a)]
+        for nm in {x.id for e in exprs for x in walk_expr(e) if isinstance(x, ast.Name)}:
+            for d in reaching_defs(g3, a.id, nm):
+                v = getattr(d.ast, "value", None)
+                if d.kind == "stmt" and v is not None:
+                    exprs.append(v)
+        svars = {c.args[0].id for e in exprs for c in walk_expr(e) if isinstance(c, ast.Call) and call_name(c) == "_checksum" and c.args and isinstance(c.args[0], ast.Name)}
+        ok = bool(svars)
+        for sv_ in svars:
+            stats = {n.id for n in g3.nodes.values() if n.kind == "stmt" and isinstance(n.ast, (ast.Assign, ast.AnnAssign)) and node_defines(n, sv_) and ".info(" in norm(n.ast.value)}
+            supplied = lambda x, sv_=sv_: x.kind == "test" and norm(x.ast) in (sv_, f"{sv_} is not None", f"{sv_} is None", f"not {sv_}")
+            # `stat = given or fs.info(path)`: the CFG splits this into  test(given) -T-> stat = given | -F-> stat = fs.info(path)
+            for t in g3.nodes.values():
+                if t.kind == "test" and isinstance(t.ast, ast.Name):
+                    for lab, d in t.succ:
+                        dn = g3.nodes[d]
+                        if lab == "T" and dn.kind == "stmt" and isinstance(dn.ast, ast.Assign) and node_defines(dn, sv_) and norm(dn.ast.value) == t.ast.id:
+                            stats.add(d)
+            ok = ok and bool(stats) and avoiding_path(g3, a.id, lambda x: x.id in stats or supplied(x), start=a.loops[-1] if a.loops else None) is None
         ck.require(ok, "C15.statetx", sm, a, "a row is built only after the file was stat'ed (or the caller supplied its stat)", "a state row can be built without a stat of the file")
     hs = [h for h in g3.nodes.values() if h.kind == "handler" and "FileNotFoundError" in norm(h.ast.type or ast.Constant(value=""))]
     okh = False
